@@ -1,4 +1,43 @@
-(* placeholder until proofs land *)
-From PV Require Import Model.Discretize.
-Theorem C17_placeholder : True. Proof. exact I. Qed.
-Print Assumptions C17_placeholder.
+(* C17  Discretisation / one-hot coding mark a frame active iff its centre is in the label.
+   discretize and one_hot_encoding mark, per label, the union over the label's support segments r
+   of the centre-mode frame ranges [closest_frame(r.start), closest_frame(r.end)] (clipped to the
+   frame count). Proved here, for every window (step > 0) and every segment r, in doubled tick
+   coordinates: a frame whose centre is at least one step inside r belongs to that range, a frame
+   whose centre is at least one step outside r does not; decoding the run of a segment restores
+   its start within half a step and places its end between 1/2 and 3/2 step too late -- so the
+   "within one step per boundary" claim is REFUTED for offsets (known finding F7).
+   Tied by the correspondence, not proved: the assembly of the matrices (clipping, saturation,
+   -1 outside the support, label-list check, frame counts), checked on every case both exactly
+   against the model and against the centre rule as a boolean specification. Statements only. *)
+From PV Require Import Model.Discretize Proofs.WindowP Proofs.DiscretizeP.
+
+Theorem C17_centre_one_step_inside_is_active : forall w, 0 < w_step w -> forall r f,
+  2 * (st r + w_step w) <= centre2 w f <= 2 * (en r - w_step w) ->
+  fst (crop_range w r ACenter None) <= f < snd (crop_range w r ACenter None).
+Proof. exact centre_inside_in_range. Qed.
+Theorem C17_centre_one_step_outside_is_inactive : forall w, 0 < w_step w -> forall r f,
+  (centre2 w f <= 2 * (st r - w_step w) \/ 2 * (en r + w_step w) <= centre2 w f) ->
+  ~ (fst (crop_range w r ACenter None) <= f < snd (crop_range w r ACenter None)).
+Proof. exact centre_outside_not_in_range. Qed.
+Theorem C17_decoded_onset_within_half_step : forall w, 0 < w_step w -> forall r,
+  Z.abs (centre2 w (fst (crop_range w r ACenter None)) - 2 * st r) <= w_step w.
+Proof. exact decode_onset_error. Qed.
+Theorem C17_decoded_offset_half_to_three_halves_step_late : forall w, 0 < w_step w -> forall r,
+  w_step w <= centre2 w (snd (crop_range w r ACenter None)) - 2 * en r <= 3 * w_step w.
+Proof. exact decode_offset_error. Qed.
+Theorem C17_one_step_per_boundary_refuted :
+  exists w r, 0 < w_step w /\ centre2 w (snd (crop_range w r ACenter None)) - 2 * en r > 2 * w_step w.
+Proof. exact decode_offset_refuted. Qed.
+
+Example C17_nonvacuous :
+  let a := ann_of 0 None None [((0, 8), NStr "_", NStr "a"); ((12, 20), NStr "_", NStr "b")] in
+  option_map d_cols (discretize 0 a None 4 4 None None) = Some [[1; 1; 1; 0]; [0; 0; 1; 1]] /\
+  option_map d_cols (one_hot_encoding 0 a (SupTl [(0, 10); (12, 20)]) 4 4 None)
+    = Some [[1; 1; 1; 0; 0]; [0; 0; 1; 1; 1]].
+Proof. vm_compute. repeat split. Qed.
+
+Print Assumptions C17_centre_one_step_inside_is_active.
+Print Assumptions C17_centre_one_step_outside_is_inactive.
+Print Assumptions C17_decoded_onset_within_half_step.
+Print Assumptions C17_decoded_offset_half_to_three_halves_step_late.
+Print Assumptions C17_one_step_per_boundary_refuted.
